@@ -14,7 +14,7 @@ pub const DEF: PropDef = PropDef {
     run,
     replay,
     level: "fault_enumeration",
-    rule: "fault enumeration on transport messages: (pattern class interactive/one-way, cipher, hash, DH, backend default / ring-first, direction, payload length 0, 1, 33, 65519 and one entry per configuration of a ladder 2..17, 100, 1000, 4080, 4096, 9000, 12288, 16384, 32768, 65503, 65518, number of genuine messages already exchanged) x forgery: single-bit flips (boundary + random; ALL bits in thorough), every truncation incl. < 16 bytes, extensions, reflection to the sender, same-index message of a second session with other keys, a later message delivered early, a replay of an accepted message, the genuine message after the receiver was repositioned (set_receiving_nonce) to another message number - 1 or 2 back, +1, +2^32, ^2^40, ^2^56, ^2^63 -, random and all-zero byte strings of 16 / 17 / message length; stateless mode: a genuine message for nonce n presented under n' != n with n' = n ^ (1<<b) for all 64 b, boundary values and random 64-bit values. Oracle: the forged delivery returns Err, and afterwards the genuine message for this session, direction and nonce is accepted and returns exactly the written payload. Non-trivial = a forged/misdirected delivery against a session that accepts the genuine message; distinct by (config, forgery)",
+    rule: "fault enumeration on transport messages: (pattern class interactive/one-way, cipher, hash, DH, backend default / ring-first, direction, payload length 0, 1, 33, 65519 and one entry per configuration of a ladder 2..17, 100, 1000, 4080, 4096, 9000, 12288, 16384, 32768, 65503, 65518, number of genuine messages already exchanged, and a session history with no rekey / a synchronised manual rekey of one direction only / manual then automatic) x forgery: single-bit flips (boundary + random; ALL bits in thorough), every truncation incl. < 16 bytes, extensions, reflection to the sender, same-index message of a second session with other keys, a later message delivered early, a replay of an accepted message, the genuine message after the receiver was repositioned (set_receiving_nonce) to another message number - 1 or 2 back, +1, +2^32, ^2^40, ^2^56, ^2^63 -, random and all-zero byte strings of 16 / 17 / message length; stateless mode: a genuine message for nonce n presented under n' != n with n' = n ^ (1<<b) for all 64 b, boundary values and random 64-bit values. Oracle: the forged delivery returns Err, and afterwards the genuine message for this session, direction and nonce is accepted and returns exactly the written payload. Non-trivial = a forged/misdirected delivery against a session that accepts the genuine message; distinct by (config, forgery)",
     technique: "fault enumeration with accept-iff-genuine oracle over both cipher backends; proptest for random forgeries and nonce pairs (+ libFuzzer target tr_forge in the thorough tier: coverage-guided XOR masks / cuts / extensions over the genuine transport message, judged by the same oracle)",
     assumptions: &["cryptographic strength is not tested: forgeries are alterations of genuine traffic, not attempts to find tag collisions"],
     panic_is_violation: false,
@@ -165,11 +165,35 @@ fn oracle(c: &Case, acc: &mut Acc) -> CaseResult {
         return Ok(());
     }
     let pair = drive_to(spec, spec.n_msgs())?;
+    // the session's history before the attack: nothing, or a synchronised manual rekey of ONE
+    // direction on both peers (the other direction must keep its own key), or manual then automatic
+    let pre_rekey = (c.jump / 7 + c.prior as u64 + c.plen as u64 + c.fbuf as u64) % 6;
+    let rk = crate::engine::expand32(spec.key_seed, 4040);
+    if (1..=3).contains(&pre_rekey) {
+        acc.label(format!("history:manual_rekey_{pre_rekey}"));
+    }
     let payload = expand(spec.key_seed, 21, c.plen);
     let what = format!("{name} [{:?}/{:?}] {} stateless={} payload {} prior {} forgery {:?} fbuf {} jump {} again {}", spec.backend_i, spec.backend_r, if c.r_to_i { "r->i" } else { "i->r" }, c.stateless, c.plen, c.prior, c.forgery, c.fbuf % 6, c.jump, c.again);
     if c.stateless {
-        let ti = pair.i.into_stateless_transport_mode().map_err(|x| Fail::setup(e(&x)))?;
-        let tr = pair.r.into_stateless_transport_mode().map_err(|x| Fail::setup(e(&x)))?;
+        let mut ti = pair.i.into_stateless_transport_mode().map_err(|x| Fail::setup(e(&x)))?;
+        let mut tr = pair.r.into_stateless_transport_mode().map_err(|x| Fail::setup(e(&x)))?;
+        match pre_rekey {
+            1 => {
+                ti.rekey_manually(Some(&rk), None);
+                tr.rekey_manually(Some(&rk), None);
+            },
+            2 => {
+                ti.rekey_manually(None, Some(&rk));
+                tr.rekey_manually(None, Some(&rk));
+            },
+            3 => {
+                ti.rekey_initiator_manually(&rk);
+                tr.rekey_initiator_manually(&rk);
+                ti.rekey_outgoing();
+                tr.rekey_incoming();
+            },
+            _ => {},
+        }
         let (w, r) = if c.r_to_i { (&tr, &ti) } else { (&ti, &tr) };
         let (n, forged, n2): (u64, Vec<u8>, u64) = match &c.forgery {
             Forgery::Nonce(n, n2) => {
@@ -232,6 +256,23 @@ fn oracle(c: &Case, acc: &mut Acc) -> CaseResult {
     } else {
         let mut ti = pair.i.into_transport_mode().map_err(|x| Fail::setup(e(&x)))?;
         let mut tr = pair.r.into_transport_mode().map_err(|x| Fail::setup(e(&x)))?;
+        match pre_rekey {
+            1 => {
+                ti.rekey_manually(Some(&rk), None);
+                tr.rekey_manually(Some(&rk), None);
+            },
+            2 => {
+                ti.rekey_manually(None, Some(&rk));
+                tr.rekey_manually(None, Some(&rk));
+            },
+            3 => {
+                ti.rekey_initiator_manually(&rk);
+                tr.rekey_initiator_manually(&rk);
+                ti.rekey_outgoing();
+                tr.rekey_incoming();
+            },
+            _ => {},
+        }
         let (w, r) = if c.r_to_i { (&mut tr, &mut ti) } else { (&mut ti, &mut tr) };
         if c.jump != 0 {
             let j = c.jump % (u64::MAX - 10);
